@@ -76,6 +76,11 @@ def check(ctx, rep):
         done0 = p.heap.get(("attr", SELF, "done"))
         rep.ob("R-TABLE", "Zipper.__init__: starts undecided", done0 == ("const", False), "", where_of(init))
     rep.require(saw and slot_field and count_field, "Zipper.__init__: registration loop / slot list / counter not identified")
+    # the loop must reach every input even when an already-finished input decides the operation on the spot
+    ps2, it2 = ctx.paths(init, Z, depth=5, immediate_callbacks=True, unroll=2)
+    early = [e for p in ps2 for e in p.evs("loop") if e.fn is init and e.d[0] == "exit" and e.d[1] == "break"]
+    early += [e for p in ps2 if p.status in ("return", "raise") for e in p.evs("return") if e.fn is init and e.node is not init.node and any(l.d[0] == "enter" and l.fn is init for l in p.evs("loop") if l.seq < e.seq) and not any(l.d[0] == "exit" and l.fn is init for l in p.evs("loop") if l.seq < e.seq)]
+    rep.ob("R-FANOUT", "Zipper.__init__: the registration loop visits every input", not early, "the loop over the inputs can be left early (e.g. once an already-finished input has decided the output): the remaining inputs get neither chain_cancel nor a callback, so cancelling/deciding the output never reaches them", where_of(init, early[0].node) if early else where_of(init))
     SL = ("attr", SELF, slot_field)
     CN = ("attr", SELF, count_field)
 
